@@ -75,15 +75,8 @@ def gen(rng, tier, ctx):
         src = rng.randrange(nd - 1)
         base = dec(descs[src]["desc"])
         if isinstance(base.get("rewards"), list) and base["rewards"]:
-            var = copy.deepcopy(base)
-            k = rng.randrange(len(var["rewards"]))
-            owners = [i for i, pl in enumerate(var.get("players", [])) if pl in ("Player 1", "Player 2")]
-            if owners and rng.random() < 0.5:
-                # same graph, same finals, one state handed to the other player
-                i = rng.choice(owners)
-                var["players"][i] = "Player 2" if var["players"][i] == "Player 1" else "Player 1"
-            elif isinstance(var["rewards"][k], (int, float)):
-                var["rewards"][k] = var["rewards"][k] + rng.randint(1, 3)
+            # a near-twin: same size and shape, one player / reward / target / probability digit different
+            var, _kind = pools.variant_game(rng, base)
             descs[nd - 1] = {"desc": enc(var), "tag": descs[src]["tag"] + "+variant", "share_tl_with": src}
             if rng.random() < 0.5:
                 # also share the players / final_states list objects (as `dict(g1, rewards=...)` does)
